@@ -65,6 +65,7 @@ class Grammar:
     ]  # todo: both terminals and non_terminals can be obtained by checking if disttoterminal == or!= 0
     non_terminals: set[type]
     abstract_dist_to_t: dict[type, dict[type, int]]
+    only_considered: bool = False  # usable_grammar(): no symbol beyond the considered (= reachable) ones
 
     def __init__(
         self,
@@ -137,7 +138,9 @@ class Grammar:
         self.all_nodes.add(ty)
 
         parent = ty.mro()[1]
-        if parent not in [object, ABC, Generic, int, bool, float, str]:
+        if self.only_considered and parent not in self.considered_subtypes:
+            pass  # the reachable sub-grammar: a class is not filed under a parent that cannot be reached
+        elif parent not in [object, ABC, Generic, int, bool, float, str]:
             assert isinstance(parent, type)
             self.register_type(parent)
             self.register_alternative(parent, ty)
@@ -400,7 +403,15 @@ class Grammar:
                         else:
                             add(k)
 
-        return extract_grammar(considered_subtypes, self.starting_symbol, self.expansion_depthing)
+        # as extract_grammar, except that registration does not climb to parents outside the reachable symbols (the
+        # ancestors of the starting symbol, or of a concrete class used as a field type, are not reachable)
+        g = Grammar(self.starting_symbol, considered_subtypes, self.expansion_depthing)
+        g.only_considered = True
+        g.register_type(self.starting_symbol)
+        g.preprocess()
+        if any(["weight" in get_gengy(p) for p in list(considered_subtypes) + list(g.all_nodes)]):
+            g.update_weights(1, g.get_weights())
+        return g
 
     def get_grammar_properties_summary(self) -> GrammarSummary:
         """Returns a summary of grammar properties:
